@@ -178,12 +178,26 @@ type ltable struct {
 	Wide  bool // a table 1024 grid columns wide / 1024 rows high (spans at the upper edge)
 	// odt: how the writer groups the rows / columns of the table (0 = not at all; see odtTable)
 	Groups int
+	// odt, Groups == 6: the rows of the table laid out by a drawn plan (structure.go): runs of
+	// rows directly in the table, in table:table-rows, in table:table-header-rows, each
+	// section on its own or in a table:table-row-group - heading rows also AFTER other rows
+	Plan []rowSeg
+	// docx: the rows that carry w:trPr/w:tblHeader ("repeat as header row"), by row index
+	HdrRows map[int]bool
 }
 
 type lblock struct {
 	P       *lpara
 	T       *ltable
 	Section bool // odt: wrapped in a text:section with the next block
+	// docx: the block sits in a block-level container that is a direct child of the body
+	// (structure.go): consecutive blocks with the same Box > 0 share one container of kind
+	// BoxKind (sdt, customXml, sdt-in-customXml, customXml-in-sdt). 0 = a direct child.
+	Box     int
+	BoxKind string
+	// docx: empty body-level markers written right before the block (bookmarkStart /
+	// bookmarkEnd / proofErr as direct children of the body)
+	Marks int
 }
 
 type ldoc struct {
@@ -1001,6 +1015,9 @@ func (d *ldoc) canon() string {
 	var b strings.Builder
 	fmt.Fprintf(&b, "%s s%v n%v h%v f%v F%s B%s X%s|", d.Format, d.Styles, d.Numbering, d.Header, d.Footer, d.Fam.canon(), d.Body, d.Flavour)
 	for _, bl := range d.Blocks {
+		if bl.Box != 0 || bl.Marks != 0 {
+			fmt.Fprintf(&b, "<%s#%d+%d>", bl.BoxKind, bl.Box, bl.Marks)
+		}
 		if bl.P != nil {
 			fmt.Fprintf(&b, "%s/%d~%d%v%s%v/%s%s%s%s%v/%d/%q;", bl.P.Kind, bl.P.Level, bl.P.StyleLevel, bl.P.StyleOwn, bl.P.RawLevel, bl.P.NoPara, bl.P.Via, bl.P.Fam, bl.P.Plain, bl.P.Jc, bl.P.Out9, bl.P.NumID, bl.P.wantText())
 			if bl.P.NoOwnLevel || bl.P.RawOutline != "" || bl.P.HStyle != "" {
@@ -1010,7 +1027,7 @@ func (d *ldoc) canon() string {
 				b.WriteString(ru.Wrap + ",")
 			}
 		} else {
-			fmt.Fprintf(&b, "T%dx%d%s[", bl.T.R, bl.T.C, bl.T.RawRepeat)
+			fmt.Fprintf(&b, "T%dx%d%s%s[", bl.T.R, bl.T.C, bl.T.RawRepeat, bl.T.structCanon())
 			for a := 0; a < bl.T.R; a++ {
 				for c := 0; c < bl.T.C; c++ {
 					if cell := bl.T.Cells[[2]int{a, c}]; cell != nil {
